@@ -15,6 +15,15 @@
 //	ARR = r B1..Br n v1..vn sl [start*r count*r step*r]  lr L1..Llr ln x1..xln
 //	      base array (row-major bit patterns, hex), optional Slice of it, and
 //	      the logical (dims, elems) the generator expects Unroll() to give
+//	BIG <type> <op>...          the same operations on LARGE blocks: ARR is procedural,
+//	      ARR = r B1..Br seed sl [start*r count*r step*r]   (base value at flat index i = seed + i)
+//	      and results / file contents are printed as SHA-256 digests (per dataset, and
+//	      per index of the first axis) of the raw little-endian element bytes
+//	Any []int / [][]int / array argument may be preceded by "SHARE id": the SAME Go
+//	object is then passed to every call that names that id (the tokens that follow
+//	repeat the object's original definition).  Every call is bracketed by a
+//	snapshot of all its arguments (slices, the source array's descriptor and the
+//	contents of its storage); a difference is reported as ARGUMENT-MODIFIED.
 //	SSALL amax bmax smin smax nmax      sliceSize over the whole box
 //	MH1ALL amax bmax smin smax nmax     makeHyperslab, one axis, over the box (+ nil)
 //	MH k <SEL>*k r d1..dr               makeHyperslab, one call
@@ -24,11 +33,14 @@ package main
 
 import (
 	"bufio"
+	"crypto/sha256"
+	"encoding/binary"
 	"flag"
 	"fmt"
 	"io/ioutil"
 	"os"
 	"path/filepath"
+	"reflect"
 	"sort"
 	"strconv"
 	"strings"
@@ -40,7 +52,9 @@ import (
 type typeOps struct {
 	name       string
 	bits       int
-	build      func(base []int, vals []uint64, sliced bool, start, count, step []int) interface{}
+	build      func(base []int, vals []uint64) interface{}
+	fill       func(base []int, seed uint64) interface{}
+	slice      func(x interface{}, start, count, step []int) interface{}
 	shape      func(x interface{}) []int
 	unroll     func(x interface{}) []uint64
 	write      func(fn, ds string, x interface{}) error
@@ -108,6 +122,81 @@ func (k *toks) name() string {
 	return s[1:]
 }
 
+// sess is the state of one SEQ / BIG case: the shared argument objects and the
+// notes (UNROLL-MISMATCH, ARGUMENT-MODIFIED) that go to the end of the result line.
+type sess struct {
+	ty     *typeOps
+	big    bool
+	shared map[int]interface{}
+	notes  []string
+}
+
+// srcArr is a source array: the view handed to the API and the contiguous
+// array it was cut from (the same object when the view is not sliced).
+type srcArr struct {
+	view, base interface{}
+}
+
+func (k *toks) shareID() (int, bool) {
+	if k.p < len(k.t) && k.t[k.p] == "SHARE" {
+		k.p++
+		return k.int(), true
+	}
+	return 0, false
+}
+
+// shareOr returns the object registered under a SHARE id, or registers the one
+// just parsed.  The definition tokens have been consumed either way.
+func (s *sess) shareOr(id int, shared bool, parsed interface{}) interface{} {
+	if !shared {
+		return parsed
+	}
+	if old, ok := s.shared[id]; ok && reflect.TypeOf(old) == reflect.TypeOf(parsed) {
+		return old
+	}
+	s.shared[id] = parsed
+	return parsed
+}
+
+// intsArg parses "[SHARE id] <n> v1..vn" (counted = true) or "[SHARE id] v1..vn"
+// with a fixed n.
+func (s *sess) intsArg(k *toks, counted bool, n int) []int {
+	id, sh := k.shareID()
+	if counted {
+		n = k.int()
+	}
+	v := k.ints(n)
+	if v == nil {
+		v = []int{}
+	}
+	return s.shareOr(id, sh, v).([]int)
+}
+
+func (s *sess) sels(k *toks) [][]int {
+	id, sh := k.shareID()
+	n := k.int()
+	sl := make([][]int, n)
+	for i := range sl {
+		eid, esh := k.shareID()
+		switch k.next() {
+		case "N":
+			sl[i] = nil
+		case "T":
+			sl[i] = s.shareOr(eid, esh, k.ints(3)).([]int)
+		case "X":
+			v := k.ints(k.int())
+			if v == nil {
+				v = []int{}
+			}
+			sl[i] = s.shareOr(eid, esh, v).([]int)
+		default:
+			panic("h5ops: bad selection token")
+		}
+	}
+	return s.shareOr(id, sh, sl).([][]int)
+}
+
+// sels without sharing (MH command)
 func (k *toks) sels(n int) [][]int {
 	sl := make([][]int, n)
 	for i := range sl {
@@ -128,39 +217,122 @@ func (k *toks) sels(n int) [][]int {
 	return sl
 }
 
-// arr parses ARR, builds the source view and cross-checks Unroll() against
-// the logical content the generator computed (a C02 sanity check; a mismatch is
-// printed in the result line so that the check script sees it).
-func (k *toks) arr(ty *typeOps, notes *[]string) interface{} {
+// arr parses ARR and builds the source view.  SEQ: cross-checks Unroll()
+// against the logical content the generator computed (a C02 sanity check; a
+// mismatch is printed in the result line so that the check script sees it).
+func (s *sess) arr(k *toks) *srcArr {
+	ty := s.ty
+	id, sh := k.shareID()
 	r := k.int()
 	base := k.ints(r)
-	n := k.int()
-	vals := make([]uint64, n)
-	for i := range vals {
-		vals[i] = k.hex()
+	var b interface{}
+	if s.big {
+		b = ty.fill(base, k.hex())
+	} else {
+		n := k.int()
+		vals := make([]uint64, n)
+		for i := range vals {
+			vals[i] = k.hex()
+		}
+		b = ty.build(base, vals)
 	}
-	sliced := k.int() == 1
-	var start, count, step []int
-	if sliced {
-		start, count, step = k.ints(r), k.ints(r), k.ints(r)
+	a := &srcArr{view: b, base: b}
+	if k.int() == 1 {
+		start, count, step := k.ints(r), k.ints(r), k.ints(r)
+		a.view = ty.slice(b, start, count, step)
 	}
-	lr := k.int()
-	ldims := k.ints(lr)
-	ln := k.int()
-	lvals := make([]uint64, ln)
-	for i := range lvals {
-		lvals[i] = k.hex()
+	if !s.big {
+		lr := k.int()
+		ldims := k.ints(lr)
+		ln := k.int()
+		lvals := make([]uint64, ln)
+		for i := range lvals {
+			lvals[i] = k.hex()
+		}
+		got := ty.unroll(a.view)
+		ok := len(got) == len(lvals) && fmt.Sprint(ty.shape(a.view)) == fmt.Sprint(ldims)
+		for i := 0; ok && i < len(got); i++ {
+			ok = got[i] == lvals[i]
+		}
+		if !ok {
+			s.notes = append(s.notes, fmt.Sprintf("UNROLL-MISMATCH shape=%v got=%x want=%x", ty.shape(a.view), got, lvals))
+		}
 	}
-	a := ty.build(base, vals, sliced, start, count, step)
-	got := ty.unroll(a)
-	ok := len(got) == len(lvals) && fmt.Sprint(ty.shape(a)) == fmt.Sprint(ldims)
-	for i := 0; ok && i < len(got); i++ {
-		ok = got[i] == lvals[i]
+	return s.shareOr(id, sh, a).(*srcArr)
+}
+
+// ---- snapshots of arguments ("a call must not modify its arguments")
+
+func snapInts(v []int) string { return fmt.Sprintf("%#v", v) }
+
+func snapSel(v [][]int) string { return fmt.Sprintf("%#v", v) }
+
+// descriptor prints every field of the array struct except the storage.
+func descriptor(x interface{}) string {
+	v := reflect.ValueOf(x)
+	for v.Kind() == reflect.Ptr || v.Kind() == reflect.Interface {
+		v = v.Elem()
 	}
-	if !ok {
-		*notes = append(*notes, fmt.Sprintf("UNROLL-MISMATCH shape=%v got=%x want=%x", ty.shape(a), got, lvals))
+	var b strings.Builder
+	var walk func(v reflect.Value)
+	walk = func(v reflect.Value) {
+		if v.Kind() != reflect.Struct {
+			fmt.Fprintf(&b, "%v;", v)
+			return
+		}
+		for i := 0; i < v.NumField(); i++ {
+			name := v.Type().Field(i).Name
+			if name == "Impl" {
+				fmt.Fprintf(&b, "Impl.len=%d;", v.Field(i).Len())
+				continue
+			}
+			if v.Field(i).Kind() == reflect.Struct {
+				walk(v.Field(i))
+				continue
+			}
+			fmt.Fprintf(&b, "%s=%v;", name, v.Field(i))
+		}
 	}
-	return a
+	walk(v)
+	return b.String()
+}
+
+func digestBits(vals []uint64, bits int) string {
+	h := sha256.New()
+	buf := make([]byte, 0, 1<<16)
+	var tmp [8]byte
+	for _, v := range vals {
+		binary.LittleEndian.PutUint64(tmp[:], v)
+		buf = append(buf, tmp[:bits/8]...)
+		if len(buf) >= 1<<16-8 {
+			h.Write(buf)
+			buf = buf[:0]
+		}
+	}
+	h.Write(buf)
+	return fmt.Sprintf("%x", h.Sum(nil)[:8])
+}
+
+func (s *sess) snapArr(a *srcArr) string {
+	return descriptor(a.view) + "|" + descriptor(a.base) + "|" + digestBits(s.ty.unroll(a.base), s.ty.bits)
+}
+
+// checked runs one API call between two snapshots of its arguments.
+func (s *sess) checked(opIdx int, op string, snaps func() []string, call func() string) string {
+	before := snaps()
+	out := guard(call)
+	after := snaps()
+	for i := range before {
+		if before[i] != after[i] {
+			b, a := before[i], after[i]
+			if len(b) > 300 {
+				b, a = b[:300]+"...", a[:300]+"..."
+			}
+			s.notes = append(s.notes, fmt.Sprintf("ARGUMENT-MODIFIED op=%d:%s arg=%d before=%s after=%s", opIdx, op, i,
+				strings.Replace(b, " ", "", -1), strings.Replace(a, " ", "", -1)))
+		}
+	}
+	return out
 }
 
 func errstr(err error) string {
@@ -179,7 +351,7 @@ func guard(f func() string) (out string) {
 	return f()
 }
 
-func fmtArr(ty *typeOps, a interface{}) string {
+func fmtArr(ty *typeOps, a interface{}, big bool) string {
 	var b strings.Builder
 	sh := ty.shape(a)
 	fmt.Fprintf(&b, "%d", len(sh))
@@ -188,6 +360,10 @@ func fmtArr(ty *typeOps, a interface{}) string {
 	}
 	u := ty.unroll(a)
 	fmt.Fprintf(&b, " %d", len(u))
+	if big {
+		fmt.Fprintf(&b, " H%s", digestBits(u, ty.bits))
+		return b.String()
+	}
 	for _, v := range u {
 		fmt.Fprintf(&b, " %x", v)
 	}
@@ -203,7 +379,7 @@ func fmtNames(n []string) string {
 	return b.String()
 }
 
-func runSeq(k *toks, dir string, caseNo int) string {
+func runSeq(k *toks, dir string, caseNo int, big bool) string {
 	ty := types[k.next()]
 	if ty == nil {
 		return "BADTYPE"
@@ -211,40 +387,45 @@ func runSeq(k *toks, dir string, caseNo int) string {
 	fn := filepath.Join(dir, fmt.Sprintf("case%d.h5", caseNo))
 	os.Remove(fn)
 	defer os.Remove(fn)
+	s := &sess{ty: ty, big: big, shared: map[int]interface{}{}}
 	var res []string
-	var notes []string
+	opIdx := -1
 	for k.more() {
 		op := k.next()
+		opIdx++
 		switch op {
 		case "C":
 			ds := k.name()
-			shape := k.ints(k.int())
+			shape := s.intsArg(k, true, 0)
 			c := k.int() == 1
-			res = append(res, guard(func() string { return errstr(ty.create(fn, ds, shape, c)) }))
+			res = append(res, s.checked(opIdx, op, func() []string { return []string{snapInts(shape)} },
+				func() string { return errstr(ty.create(fn, ds, shape, c)) }))
 		case "W":
 			ds := k.name()
-			a := k.arr(ty, &notes)
-			res = append(res, guard(func() string { return errstr(ty.write(fn, ds, a)) }))
+			a := s.arr(k)
+			res = append(res, s.checked(opIdx, op, func() []string { return []string{s.snapArr(a)} },
+				func() string { return errstr(ty.write(fn, ds, a.view)) }))
 		case "S":
 			ds := k.name()
-			a := k.arr(ty, &notes)
-			loc := k.ints(k.int())
-			res = append(res, guard(func() string { return errstr(ty.writeSlice(fn, ds, a, loc)) }))
+			a := s.arr(k)
+			loc := s.intsArg(k, true, 0)
+			res = append(res, s.checked(opIdx, op, func() []string { return []string{s.snapArr(a), snapInts(loc)} },
+				func() string { return errstr(ty.writeSlice(fn, ds, a.view, loc)) }))
 		case "L", "LS":
 			ds := k.name()
 			var sl [][]int
 			if op == "LS" {
-				sl = k.sels(k.int())
+				sl = s.sels(k)
 			}
-			res = append(res, guard(func() string {
+			res = append(res, s.checked(opIdx, op, func() []string { return []string{snapSel(sl)} }, func() string {
 				a, err := ty.load(fn, ds, sl)
 				if a == nil {
 					return errstr(err)
 				}
 				if err != nil {
-					return "okerr " + fmtArr(ty, a)
+					return "okerr " + fmtArr(ty, a, big)
 				}
-				return "ok " + fmtArr(ty, a)
+				return "ok " + fmtArr(ty, a, big)
 			}))
 		case "P":
 			ds := k.name()
@@ -281,9 +462,9 @@ func runSeq(k *toks, dir string, caseNo int) string {
 			panic("h5ops: unknown op " + op)
 		}
 	}
-	out := strings.Join(res, " | ") + " || " + dumpFile(fn)
-	if len(notes) > 0 {
-		out += " ## " + strings.Join(notes, " ; ")
+	out := strings.Join(res, " | ") + " || " + dumpFile(fn, big)
+	if len(s.notes) > 0 {
+		out += " ## " + strings.Join(s.notes, " ; ")
 	}
 	return out
 }
@@ -292,7 +473,7 @@ func runSeq(k *toks, dir string, caseNo int) string {
 // that exist in the real binding: "g:<path>" and
 // "d:<path> r d1..dr n c1..cn" (cells = raw little-endian values of the
 // dataset's own element size).
-func dumpFile(fn string) string {
+func dumpFile(fn string, big bool) string {
 	if _, err := os.Stat(fn); os.IsNotExist(err) {
 		return "NOFILE"
 	}
@@ -345,6 +526,19 @@ func dumpFile(fn string) string {
 				fmt.Fprintf(&b, " %d", d)
 			}
 			fmt.Fprintf(&b, " %d", cnt)
+			if big {
+				// digest of the whole dataset, then of every index of the first axis
+				sum := sha256.Sum256(raw)
+				fmt.Fprintf(&b, " H%x", sum[:8])
+				if len(dims) > 0 && dims[0] > 0 && dims[0] <= 64 {
+					row := len(raw) / int(dims[0])
+					for r := 0; r < int(dims[0]); r++ {
+						rs := sha256.Sum256(raw[r*row : (r+1)*row])
+						fmt.Fprintf(&b, " R%x", rs[:4])
+					}
+				}
+				cnt = 0
+			}
 			for c := 0; c < cnt; c++ {
 				var v uint64
 				for j := esz - 1; j >= 0; j-- {
@@ -412,7 +606,9 @@ func main() {
 			k := &toks{t: strings.Fields(line)}
 			switch k.next() {
 			case "SEQ":
-				fmt.Fprintln(out, runSeq(k, dir, caseNo))
+				fmt.Fprintln(out, runSeq(k, dir, caseNo, false))
+			case "BIG":
+				fmt.Fprintln(out, runSeq(k, dir, caseNo, true))
 			case "SSALL", "MH1ALL":
 				cmd := k.t[0]
 				amax, bmax, smin, smax, nmax := k.int(), k.int(), k.int(), k.int(), k.int()
